@@ -7,4 +7,5 @@ PROPERTY DriftOnlyFromLabels
 PROPERTY RefusalRules
 PROPERTY NewReference
 PROPERTY CountsUpdatesOnly
+PROPERTY ReRefKeepsProtocol
 CHECK_DEADLOCK FALSE
